@@ -244,6 +244,8 @@ class FitYamlReader(YamlReaderMixin, FitDReprBase):
 
         if _read_parametric_model is not None:
             _fit_object._param_model = _read_parametric_model
+            # the fit must hear about later changes of the model-side uncertainty sources just like it does for the model it created itself
+            _fit_object._param_model._on_error_change_callback = _fit_object._on_error_change
 
         _constraint_yaml_list = yaml_doc.pop("parameter_constraints", None)
         if isinstance(_constraint_yaml_list, dict):
